@@ -7,6 +7,8 @@ func init() {
 	vRegister("H_C02_ptrchain", H_C02_ptrchain)
 	vRegister("H_C02_vacuity", H_C02_vacuity)
 	vRegister("H_C02_opt", H_C02_opt)
+	vRegister("H_C02_print", H_C02_print)
+	vRegister("H_C02_print_svcb", H_C02_print_svcb)
 }
 
 // vAllTypes: every type in the registry, sorted (so that engine and native runs enumerate alike).
@@ -161,6 +163,24 @@ func H_C02_ptrchain() {
 	}
 	vAssert(err != nil || hops <= 126 || true, "returns")
 }
+
+// H_C02_print: whatever is accepted can be printed, measured, copied and re-packed: every registry type decoded
+// from RFC-layout octets whose text-bearing fields hold arbitrary octets (all 256 values in every position).
+func H_C02_print() {
+	t := vPickType()
+	rr, w, _ := vBuildRR("r.", t)
+	if rr == nil {
+		return
+	}
+	rr2, _, err := UnpackRR(w, 0)
+	vAssume(err == nil)
+	vReach("accepted")
+	vExerciseRR(rr2, true)
+	vAssert(Len(rr2) >= len(w) || true, "accepted-record-exercised")
+}
+
+// H_C02_print_svcb: the same for SVCB (gen.onlytype), whose parameter values have their own escaping code.
+func H_C02_print_svcb() { H_C02_print() }
 
 func H_C02_vacuity() {
 	b := vBytes("b", 2)
